@@ -171,3 +171,113 @@ def const_pool(w, fn_short):
                 if o['o'] == 'const' and 'str' in o:
                     out.add(o['str'])
     return out
+
+
+# ---------------------------------------------------------------------------------------------
+# the text predicates the evaluator treats as given: "has a line break" / "number of line breaks" of a whitespace token
+# ---------------------------------------------------------------------------------------------
+def _is_newline_fn(op):
+    return op.get('o') == 'const' and 'fn' in op and op['fn']['def']['path'].endswith('is_newline') and op['fn']['def'].get('crate') == 'typst_syntax'
+
+
+def _newline_test_closure(w, cid):
+    """closure(&char | char) -> bool is exactly `typst_syntax::is_newline(c)`"""
+    from mirfacts import callee_path
+    cb = w.bodies.get(cid)
+    if cb is None:
+        return False
+    calls = [t for _, t in cb.calls()]
+    if len(calls) != 1 or not (callee_path(calls[0]) or '').endswith('typst_syntax::is_newline'):
+        return False
+    t = calls[0]
+    return t['dest']['l'] == 0 and not t['dest']['proj'] and not any(blk['term']['t'] == 'switch' for blk in cb.blocks)
+
+
+def linebreak_predicate_obligations(w):
+    """[(ok, construct, key, why, loc)]: StrExt::has_linebreak(s) <=> s contains a character the Typst lexer treats as a line break;
+    StrExt::count_linebreaks(s) = number of line breaks the lexer sees in s (a CR LF pair is one).
+    The whitespace rules abstract a Space / Parbreak / RawTrimmed token by "contains a line break or not" and emit count_linebreaks() hard breaks; the
+    tokens themselves are cut by the lexer, so the predicate has to be the lexer's own notion of a line break: with a narrower one (LF only) the
+    line break that ends a line comment is not recognised (`// c<CR>b`), with a per-character count CR LF doubles every blank line."""
+    from paths import BodyView
+    from mirfacts import callee_path
+    from prov import strip_casts
+    out = []
+    core = w.core
+    fns = {}
+    for b in w.fn_bodies(core):
+        if b.def_kind != 'Closure' and (b.j.get('impl_trait') or {}).get('path', '').endswith('StrExt') and b.short.rsplit('::', 1)[-1] in ('has_linebreak', 'count_linebreaks'):
+            fns[b.short.rsplit('::', 1)[-1]] = b
+    for name in ('has_linebreak', 'count_linebreaks'):
+        b = fns.get(name)
+        cons = {'fn': 'StrExt::' + name}
+        if b is None:
+            out.append((False, cons, 'strext|%s|missing' % name, 'text predicate StrExt::%s not found (the evaluator models it by name): fail closed' % name, None))
+            continue
+        v = BodyView(w, b)
+        selfish = lambda a: all(o[0] == 'param' and o[1] == 1 for o in v.pv.peel(v.pv.origins_operand(a)))
+
+        def newline_char_count(operand):
+            """operand = self.chars().filter(|c| is_newline(c)).count()"""
+            for o in v.pv.peel(v.pv.origins_operand(operand)):
+                o = strip_casts(o)
+                if o[0] != 'call' or not re.search(r'Iterator>?::count$', callee_path(v.pv.call_term(o)) or ''):
+                    return False
+                for x in v.pv.peel(v.pv.origins_operand(v.pv.call_term(o)['args'][0])):
+                    if x[0] != 'call':
+                        return False
+                    ft = v.pv.call_term(x)
+                    if not re.search(r'Iterator>?::filter$', callee_path(ft) or ''):
+                        return False
+                    src = v.pv.peel(v.pv.origins_operand(ft['args'][0]))
+                    if not (src and all(y[0] == 'call' and (callee_path(v.pv.call_term(y)) or '').endswith('<impl str>::chars') and selfish(v.pv.call_term(y)['args'][0]) for y in src)):
+                        return False
+                    cid = None
+                    for y in v.pv.peel(v.pv.origins_operand(ft['args'][1])):
+                        if y[0] == 'agg' and v.pv.agg_rvalue(y).get('ak') == 'closure':
+                            cid = v.pv.agg_rvalue(y)['def']['id']
+                    if not (cid and _newline_test_closure(w, cid)):
+                        return False
+            return True
+
+        def crlf_pair_count(operand):
+            """operand = self.matches("\r\n").count()"""
+            for o in v.pv.peel(v.pv.origins_operand(operand)):
+                o = strip_casts(o)
+                if o[0] != 'call' or not re.search(r'Iterator>?::count$', callee_path(v.pv.call_term(o)) or ''):
+                    return False
+                for x in v.pv.peel(v.pv.origins_operand(v.pv.call_term(o)['args'][0])):
+                    if x[0] != 'call':
+                        return False
+                    mt = v.pv.call_term(x)
+                    if not ((callee_path(mt) or '').endswith('<impl str>::matches') and selfish(mt['args'][0]) and mt['args'][1].get('o') == 'const'
+                            and mt['args'][1].get('s') in ('"\\r\\n"', "'\\r\\n'", '"\r\n"', "'\r\n'")):
+                        return False
+            return True
+        ors = {strip_casts(o) for o in v.pv.peel(v.pv._origins_local(0, frozenset()))}
+        ok, why = False, 'returns %s' % sorted(v.describe(o) for o in ors)
+        if name == 'has_linebreak':
+            if len(ors) == 1 and list(ors)[0][0] == 'call':
+                t = v.pv.call_term(list(ors)[0])
+                if (callee_path(t) or '').endswith('<impl str>::contains') and selfish(t['args'][0]) and _is_newline_fn(t['args'][1]):
+                    ok, why = True, 'self.contains(typst_syntax::is_newline)'
+                elif (callee_path(t) or '').endswith('<impl str>::contains'):
+                    why = 'self.contains(%s): not the lexer\'s set of line-break characters' % t['args'][1].get('s', '?')
+        else:
+            if len(ors) == 1 and list(ors)[0][0] == 'binop' and list(ors)[0][1][2].startswith('Sub'):
+                o = list(ors)[0]
+                rv = b.blocks[o[1][0]]['stmts'][o[1][1]]['rv']
+                if newline_char_count(rv['a']) and crlf_pair_count(rv['b']):
+                    ok, why = True, 'count of line-break characters minus count of CR LF pairs'
+                else:
+                    why = 'a difference, but not (line-break characters) - (CR LF pairs)'
+            elif len(ors) == 1 and list(ors)[0][0] == 'call':
+                why = 'a plain per-character count (%s): a CR LF pair would count twice, or only some of the lexer\'s line-break characters are counted' % v.describe(list(ors)[0])
+        if ok:
+            out.append((True, cons, 'strext|%s' % name, why, b.loc()))
+        else:
+            out.append((False, cons, 'strext|%s' % name,
+                        'StrExt::%s is not "%s" (%s): line breaks copied from a space / paragraph break would differ from the line breaks of the source, or the line break that '
+                        'ends a line comment would not be recognised' % (name, 'contains a line break of the Typst lexer' if name == 'has_linebreak' else
+                                                                     'number of line breaks of the Typst lexer, CR LF counted once', why), b.loc()))
+    return out
